@@ -140,7 +140,7 @@ def run(model, R):
     calls = [n for n in walk(init.body) if isinstance(n, ast.Call) and (chain(n.func) or [''])[-1] == '_annotate']
     inst = init.params[0]
     ok = len(calls) == 1 and [chain(a) for a in calls[0].args] == [[inst, '_context'], [inst, '_mapping']]
-    R.check(ok, 'LABELLING', init, calls[0] if calls else init.node, '_init labels with the lattice\'s own context and mapping',
+    R.same(ok, 'LABELLING', init, calls[0] if calls else init.node, '_init labels with the lattice\'s own context and mapping',
             f'{inst}._annotate({inst}._context, {inst}._mapping)', src(calls[0]) if calls else 'no call')
     guard_ok = True
     for s in stmts(init.body):
